@@ -24,9 +24,10 @@ Verdict(r) ==
   LET f0 == FileOf(r)
       \* hand-written sequences (free = "1") lie outside the rule universe: the result wanted is what the chain of
       \* single-change runs, the file re-read in between, was observed to give (the statement's own definition)
-      want == IF r.free = "1" THEN [ok |-> TRUE, file |-> [pkg |-> r.chain.pkg, body |-> r.chain.body]] ELSE Chain(f0, r.rules)
+      \* ... and so do sequences in which a change meets an instance inside an instance of itself (History.tla)
+      want == IF r.free = "1" \/ ~WellFormedRun(f0, r.rules) THEN [ok |-> TRUE, file |-> [pkg |-> r.chain.pkg, body |-> r.chain.body]] ELSE Chain(f0, r.rules)
       ev == r.events
-      pred == IF r.free = "1" THEN [log |-> [i \in 1..Len(ev) |-> [k |-> ev[i].k, matched |-> ev[i].matched = "1"]]] ELSE IRun(f0, r.rules)
+      pred == IF r.free = "1" \/ ~WellFormedRun(f0, r.rules) THEN [log |-> [i \in 1..Len(ev) |-> [k |-> ev[i].k, matched |-> ev[i].matched = "1"]]] ELSE IRun(f0, r.rules)
       badRoutes == {r.routes[i].name : i \in {j \in 1..Len(r.routes) : ~RouteOK(r.routes[j], want, f0)}}
       \* the chain route is the definition itself: a disagreement there means the harness, not the tool
   IN [id |-> r.id,
